@@ -76,7 +76,7 @@ func genProgram(t *rapid.T, maxThreads, maxCalls int, timed bool) ringCase {
 	}
 	kinds := []string{"push", "push", "push", "pop", "pop", "pop", "len", "isempty", "isfull", "pushwait0", "popwait0", "pushwaitinf", "popwaitinf"}
 	if timed {
-		kinds = append(kinds, "pushwaitT", "popwaitT")
+		kinds = append(kinds, "pushwaitT", "popwaitT", "pushwaitT", "popwaitT", "sleep", "sleep", "sleep")
 	}
 	for i := 0; i < nt; i++ {
 		n := rapid.IntRange(1, maxCalls).Draw(t, "ncalls")
@@ -91,6 +91,10 @@ func genProgram(t *rapid.T, maxThreads, maxCalls int, timed bool) ringCase {
 				k = "push"
 			case "poppers":
 				k = "pop"
+			}
+			if k == "sleep" {
+				th = append(th, call{K: k, V: rapid.IntRange(1, 24).Draw(t, "ms")})
+				continue
 			}
 			th = append(th, call{K: k, V: 100*(i+1) + j})
 		}
@@ -163,6 +167,10 @@ func sane(c ringCase) bool {
 				if cl.K == "popwaitinf" && !po {
 					return false
 				}
+			case cl.K == "sleep":
+				if cl.V < 0 || cl.V > 100 {
+					return false
+				}
 			case cl.K == "len" || cl.K == "isempty" || cl.K == "isfull":
 			default:
 				return false
@@ -176,6 +184,10 @@ type recorder struct{ ops []lin.Op }
 
 func execThread(q *ringz.SyncRing[int], th int, calls []call, rec *recorder) {
 	for _, cl := range calls {
+		if cl.K == "sleep" {
+			time.Sleep(time.Duration(cl.V) * time.Millisecond)
+			continue
+		}
 		o := lin.Op{Thread: th, Call: conc.Tick()}
 		switch cl.K {
 		case "push":
